@@ -3,7 +3,7 @@
 import json, glob, os
 print("| change | property | what it does | needs | caught by |")
 print("|--------|----------|--------------|-------|-----------|")
-for d in sorted(glob.glob('/verif/seeded/C*-*')):
+for d in sorted(glob.glob('/verif/seeded/C*-*'), key=lambda x: (os.path.basename(x).split('-')[0], int(os.path.basename(x).split('-')[1]))):
     m = json.load(open(d + '/meta.json'))
     summ = (m.get('summary') or '').replace('|', '/').replace('\n', ' ')[:160]
     needs = (m.get('needs') or '').replace('|', '/').replace('\n', ' ')[:140]
